@@ -110,7 +110,7 @@ theorem grid_wellFormed (c : Cfg) (hin : inGrid c = true) (hdoc : docValid c = t
   apply wellFormed_of_single _ hne
   intro hd' hhd
   obtain ⟨hle, hle2⟩ := hd hd' hhd
-  refine ⟨hle, 0, ?_⟩
+  refine ⟨0, ?_⟩
   have key : ∀ u, wellFormed (Cfg.mk fam variant filters rate maxStride bos stem cpb middle u 1 [⟨hd'.os, 0⟩] true true 4) = true := by
     apply wellFormed_upInterp (Cfg.mk fam variant filters rate maxStride bos stem cpb middle upInterp 1 [⟨hd'.os, 0⟩] true true 4)
     have hos := hheads hd' hhd
